@@ -15,8 +15,10 @@ guards, backup / restore / delete — is transliterated branch by branch.  Byte 
 A storage fault plan (`failPut k`) makes the k-th storage `Put` of the next mutating operation fail (for `Persist` on
 the to-archive path: 1 = archive put, 2 = policy put; on the from-archive path the policy put is the only one; `restore`
 first writes the backup's archive), the single-fault convention of DESIGN section 4; 0 = no fault.  `Persist`'s
-deferred rollback restores exactly what the Go code restores (`ArchiveVersion`, `Keys`) — `ArchiveMinVersion` is not
-among them, which is finding F13.
+deferred rollback restores exactly what the Go code restores (`ArchiveVersion`, `ArchiveMinVersion` — added by the
+repair of finding F38 — and `Keys`).  Storage is transactional (as the raft and in-memory backends are): rotate,
+config and trim run inside `StartTxStorage`, so the writes of a failed request are rolled back; create, backup and
+restore open no transaction (the latter is finding F39).
 -/
 namespace Obao.Transit
 
@@ -157,9 +159,9 @@ def verRange (a b : Nat) : List Nat := List.range' a (b + 1 - a)
     already applied, `archive` the stored archive, `fault` the index of the put of this `Persist` that fails
     (0 none). -/
 def persist (p : Policy) (archive : List Key) (fault : Nat) : PRes :=
-  let priorArchiveVer := p.archiveVer
-  let priorKeys := p.keys
-  let rollback (q : Policy) : Policy := { q with archiveVer := priorArchiveVer, keys := priorKeys }
+  -- the deferred rollback of `Persist`: `ArchiveVersion`, `ArchiveMinVersion` (since the repair of F38) and `Keys`
+  let rollback (q : Policy) : Policy :=
+    { q with archiveVer := p.archiveVer, archiveMin := p.archiveMin, keys := p.keys }
   let kcm := (kget p.keys p.minDec).isSome
   if p.minDec < 1 then .fail "persist:minDec<1" (rollback p) archive else
   if p.latest < 1 then .fail "persist:latest<1" (rollback p) archive else
@@ -232,9 +234,10 @@ def rotate (st : St) : St × Out :=
                        minDec := if p.minDec = 0 then 1 else p.minDec }
     match persist p1 st.archive st.failPut with
     | .ok p' a => ({ st0 with pol := some p', archive := a, nextKey := st.nextKey + 1 }, polOut p')
-    | .fail cls q a =>
+    | .fail cls q _ =>
       -- Rotate's deferred restore: latest, minDec, keys
-      ({ st0 with pol := some { q with latest := p.latest, minDec := p.minDec, keys := p.keys }, archive := a,
+      -- the endpoint runs inside `StartTxStorage`: the failed request's writes are rolled back
+      ({ st0 with pol := some { q with latest := p.latest, minDec := p.minDec, keys := p.keys },
                   nextKey := st.nextKey + 1 }, .err cls)
     | .panic => (st0, .panic)
 
@@ -313,9 +316,10 @@ def config (st : St) (dec enc : Option Int) (del exp apb : Option Bool) : St × 
     | .ok (p6, true) =>
       match persist p6 st.archive st.failPut with
       | .ok p' a => ({ st0 with pol := some p', archive := a }, polOut p')
-      | .fail cls q a =>
+      | .fail cls q _ =>
+        -- inside `StartTxStorage`: the stored archive is rolled back with the failed request
         ({ st0 with pol := some { q with minDec := p.minDec, minEnc := p.minEnc, deletionAllowed := p.deletionAllowed,
-                                         exportable := p.exportable, plainBackup := p.plainBackup }, archive := a }, .err cls)
+                                         exportable := p.exportable, plainBackup := p.plainBackup } }, .err cls)
       | .panic => (st0, .panic)
 
 /-- harness-only: a caller of `keysutil` that assigns both minimum versions WITHOUT the endpoint's guards and
@@ -328,7 +332,7 @@ def rawConfig (st : St) (dec enc : Nat) : St × Out :=
   | some p =>
     match persist { p with minDec := dec, minEnc := enc } st.archive st.failPut with
     | .ok p' a => ({ st0 with pol := some p', archive := a }, polOut p')
-    | .fail cls q a => ({ st0 with pol := some { q with minDec := p.minDec, minEnc := p.minEnc }, archive := a }, .err cls)
+    | .fail cls q _ => ({ st0 with pol := some { q with minDec := p.minDec, minEnc := p.minEnc } }, .err cls)
     | .panic => (st0, .panic)
 
 /-- `pathTrimUpdate` -/
@@ -346,7 +350,7 @@ def trim (st : St) (n : Int) : St × Out :=
     if n = 0 then (st0, .err "trimZero") else
     match persist { p with minAvail := n.toNat } st.archive st.failPut with
     | .ok p' a => ({ st0 with pol := some p', archive := a }, polOut p')
-    | .fail cls q a => ({ st0 with pol := some { q with minAvail := p.minAvail }, archive := a }, .err cls)
+    | .fail cls q _ => ({ st0 with pol := some { q with minAvail := p.minAvail } }, .err cls)   -- in a transaction
     | .panic => (st0, .panic)
 
 /-- `LockManager.BackupPolicy` / `Policy.Backup` -/
@@ -704,9 +708,38 @@ def Op.keepsRing : Op → Bool
   | .new _ _ _ | .restore _ _ | .delete | .failPut _ | .rawConfig _ _ => false
   | _ => true
 
-/-- as `keepsRing`, but storage fault plans are allowed -/
-def Op.keepsRingOrFault : Op → Bool
-  | .failPut _ => true
+/-- the endpoint operations whose handler runs inside `logical.StartTxStorage` -/
+def Op.transactional : Op → Bool
+  | .rotate | .config _ _ _ _ _ | .trim _ => true
+  | _ => false
+
+/-- operations that write nothing (and leave a planned storage fault pending) -/
+def Op.readOnly : Op → Bool
+  | .encrypt _ _ _ _ _ | .decrypt _ _ _ _ _ | .rewrap _ _ _ | .sign _ _ _ | .verify _ _ _ _ _ | .hmac _ _
+  | .hmacVerify _ _ _ _ => true
+  | _ => false
+
+/-- a ring-keeping history in which storage faults may be planned, provided the operation a planned fault hits is a
+    transactional one (rotate, config, trim); `pending` = a fault is planned and not yet consumed -/
+def txFaults : Bool → List Op → Bool
+  | _, [] => true
+  | _, .failPut k :: os => txFaults (k != 0) os
+  | pending, o :: os =>
+    if o.transactional then txFaults false os
+    else if o.readOnly then txFaults pending os
+    else o.keepsRing && !pending && txFaults false os
+
+/-- ring-keeping operations, fault plans, and restores -/
+def Op.keepsRingOrFaultOrRestore : Op → Bool
+  | .failPut _ | .restore _ _ => true
   | o => o.keepsRing
+
+/-- every `restore` of the history fails (so the key ring is never legitimately replaced) -/
+def restoresFail : St → List Op → Bool
+  | _, [] => true
+  | st, o :: os =>
+    (match o with
+     | .restore _ _ => (match (step st o).2 with | .err _ => true | _ => false)
+     | _ => true) && restoresFail (step st o).1 os
 
 end Obao.Transit
